@@ -396,11 +396,6 @@ func fnSetRange(ctx *cmdContext, args map[string]any) (output respValue, err err
 		output.data = respErrorString("ERR offset is out of range")
 		return
 	}
-	if offset > maxStringLength-int64(len(value)) {
-		output.data = respErrorString("ERR string exceeds maximum allowed size (proto-max-bulk-len)")
-		return
-	}
-
 	result := ctx.dsc.setRange(key, int(offset), value)
 	output.data = result.data
 	return
